@@ -135,6 +135,7 @@ def opDivArith (j : Json) : M Json := do
       | _ => true
     pure (Json.mkObj [
       ("add", jExcDiv (dAdd same A B)), ("sub", jExcDiv (dSub same A B)),
+      ("radd", jExcDiv (dAdd same B A)), ("rsub", jExcDiv (dSub same B A)),
       ("neg", jDiv (dNeg A)), ("rmul", jDiv (dSmul k A)),
       ("eq_AB", jBool (dEq same G H A B)), ("eq_AA2", jBool (dEq same G H A A)),
       ("eq_self", jBool (dEq true G G A A)),
